@@ -5,15 +5,29 @@ from ..symexec import SymExec, variant_name
 from ..facts import AnchorMissing
 from . import shared, C10
 
-LEVEL = ("decides: infeasibility is declared only for a conflict at decision level 0 (dominance in "
-         "the search loop, typestate for every other site) (U1); no reason reference is fabricated and "
-         "only decisions/assumptions/root posts lack a reason (U2); an Err from a posting function is "
-         "preceded by recording the conflict or guarded by an inconsistent state (U3); a learned nogood "
-         "is posted with the lazy reason of the id under which it was just stored, after both watchers "
-         "(U4); kernel predicate tables: negation (x≥v ↔ x≤v−1, x=v ↔ x≠v), constructor → variant, "
-         "post_predicate → mutator, add_clause negates every literal (U5); posting a predicate is never "
-         "skipped unless the predicate already holds (U5b). Does not decide soundness of propagation, "
-         "explanations or minimisation, nor completeness/termination of search")
+LEVEL = ('decides: infeasibility is declared only for a conflict at decision level 0 (dominance in the'
+         ' search loop, typestate for every other site) (U1); no reason reference is fabricated and '
+         'only decisions/assumptions/root posts lack a reason (U2); an Err from a posting function is '
+         'preceded by recording the conflict or guarded by an inconsistent state (U3); a learned '
+         'nogood is posted with the lazy reason of the id under which it was just stored, after both '
+         'watchers (U4); kernel predicate tables: negation (x≥v ↔ x≤v−1, x=v ↔ x≠v), constructor → '
+         'variant, post_predicate → mutator, add_clause negates every literal (U5); posting a '
+         'predicate is never skipped unless the predicate already holds (U5b). every reason the kernel'
+         ' derives for a predicate that is true without being on the trail implies that predicate, '
+         'negation is the exact complement and evaluate_predicate is exact (U8–U10, predicate-algebra '
+         'TABLEs decided on a small integer window); assumptions are overwritten per solve (U11); '
+         'label TABLE of the recursive minimiser — Keep only for predicates of the nogood, Removable '
+         'only after all antecedents, only Poison before the reason is read (U12); the no-learning '
+         "resolver's flipped decision carries a reason over every earlier level (U13); WAKE/READD of "
+         'the nogood watchers (U14/U15). every reason the kernel derives for a predicate that is true '
+         'without being on the trail implies that predicate, negation is the exact complement and '
+         'evaluate_predicate is exact (U8–U10, predicate-algebra TABLEs decided on a small integer '
+         'window); assumptions are overwritten per solve (U11); label TABLE of the recursive minimiser'
+         ' — Keep only for predicates of the nogood, Removable only after all antecedents, only Poison'
+         " before the reason is read (U12); the no-learning resolver's flipped decision carries a "
+         'reason over every earlier level (U13); WAKE/READD of the nogood watchers (U14/U15). Does not'
+         ' decide soundness of propagation, explanations or minimisation, nor completeness/termination'
+         ' of search')
 TECHNIQUE = "static analysis: dominance, who-may-construct, symbolic table recovery, typestate over rustc MIR"
 
 
